@@ -1,5 +1,6 @@
 import PyYetiVerif.Props.C02g
 import PyYetiVerif.Props.C02i
+import PyYetiVerif.Props.C02j
 import PyYetiVerif.Lemmas.FreqWitness
 /-!
 # C02 — non-vacuity of `colSU_solves` / `colFD_solves`
@@ -24,7 +25,7 @@ example : ∃ sol, colSU envUnc stUnc true none (fun _ => 1) 1 = .ok sol ∧
     sol.map (fun x => (x.d, x.v, x.a)) = [(4, 3, 1), (2, 4, 3), (2, 4, 3)] ∧
     ∀ r, r < 3 →
       ((List.range 3).map fun c =>
-        partStiff envUnc.i 1 envUnc.M envUnc.B envUnc.K lay.rb lay.el lay.rf r c *
+        partStiff envUnc.i 1 envUnc.M envUnc.rbDamping envUnc.B envUnc.K lay.rb lay.el lay.rf r c *
           (rowOf sol c).d).sum = (fun _ => 1) r ∧
       (rowOf sol r).v = envUnc.i * 1 * (rowOf sol r).d ∧
       (rowOf sol r).a = -(1 * 1) * (rowOf sol r).d := by
@@ -39,14 +40,61 @@ example : ∃ sol, colSU envUnc stUnc true none (fun _ => 1) 1 = .ok sol ∧
     exact colSU_solves envUnc (fun x => by simp [envUnc]) lay (by decide) (by decide) (by decide) true
       (fun _ => rfl) stUnc (by decide) none (fun _ => 1) 1 one_ne_zero (by decide) rfl rfl
       (fun h => by cases h)
-      (fun _ => ⟨fun r c hne => by simp [envUnc, hne], by decide, by decide, by decide⟩)
+      (fun _ => ⟨fun r c hne => by simp [envUnc, hne], by decide, by decide, by decide, by decide⟩)
       (fun h => by cases h) sol h
+
+/-- `SolveUnc`, uncoupled with a **damped rigid-body mode** (`envUncD`), on the real path
+(`b[_rb]`, `invm[_rb]`) and on the complex-coefficient path (`brb`, `imrb` after `get_su_eig`): the
+rigid-body row is `d = f / (−Ω² m + iΩ b) = 1`, `v = iΩ d = 2`, `a = −Ω² d = 4` — not the undamped
+`(4, 3, 1)` of the previous example — and the column satisfies the full-size equation whose
+rigid-body block carries the damping. -/
+example : ∀ uncReal : Bool, ∃ sol,
+    colSU envUncD (if uncReal then stUnc else stCoup) uncReal none (fun _ => 1) 1 = .ok sol ∧
+    sol.map (fun x => (x.d, x.v, x.a)) = [(1, 2, 4), (2, 4, 3), (2, 4, 3)] ∧
+    ∀ r, r < 3 →
+      ((List.range 3).map fun c =>
+        partStiff envUncD.i 1 envUncD.M envUncD.rbDamping envUncD.B envUncD.K lay.rb lay.el lay.rf r c *
+          (rowOf sol c).d).sum = (fun _ => 1) r ∧
+      (rowOf sol r).v = envUncD.i * 1 * (rowOf sol r).d ∧
+      (rowOf sol r).a = -(1 * 1) * (rowOf sol r).d := by
+  intro uncReal
+  have hz : ∀ x, envUncD.isZero x = true ↔ x = 0 := fun x => by simp [envUncD, envUnc]
+  have hunc : envUncD.unc = true → (∀ r c, r ≠ c → envUncD.M r c = 0 ∧ envUncD.B r c = 0 ∧ envUncD.K r c = 0) ∧
+      (∀ r ∈ lay.rf, envUncD.K r r ≠ 0) ∧ (∀ r ∈ lay.rb, envUncD.M r r ≠ 0) ∧
+      (∀ r ∈ lay.rb, -((1 : ZMod 5) * 1) * envUncD.M r r + envUncD.i * 1 * envUncD.B r r ≠ 0) ∧
+      ∀ r ∈ lay.el, envUncD.i * (envUncD.B r r * 1) + envUncD.K r r - envUncD.M r r * (1 * 1) ≠ 0 :=
+    fun _ => ⟨fun r c hne => by simp [envUncD, envUnc, hne], by decide, by decide, by decide, by decide⟩
+  cases uncReal with
+  | true =>
+    have hres : (match colSU envUncD stUnc true none (fun _ => 1) 1 with
+        | .ok sol => sol.map fun x => (x.d, x.v, x.a)
+        | .error _ => []) = [(1, 2, 4), (2, 4, 3), (2, 4, 3)] := by decide +kernel
+    cases h : colSU envUncD stUnc true none (fun _ => 1) 1 with
+    | error m => rw [h] at hres; cases hres
+    | ok sol =>
+      rw [h] at hres
+      refine ⟨sol, h, hres, ?_⟩
+      exact colSU_solves envUncD hz lay (by decide) (by decide) (by decide) true
+        (fun _ => rfl) stUnc (by decide) none (fun _ => 1) 1 one_ne_zero (by decide) rfl rfl
+        (fun h => by cases h) hunc (fun h => by cases h) sol h
+  | false =>
+    have hres : (match colSU envUncD stCoup false none (fun _ => 1) 1 with
+        | .ok sol => sol.map fun x => (x.d, x.v, x.a)
+        | .error _ => []) = [(1, 2, 4), (2, 4, 3), (2, 4, 3)] := by decide +kernel
+    cases h : colSU envUncD stCoup false none (fun _ => 1) 1 with
+    | error m => rw [h] at hres; cases hres
+    | ok sol =>
+      rw [h] at hres
+      refine ⟨sol, h, hres, ?_⟩
+      exact colSU_solves envUncD hz lay (by decide) (by decide) (by decide) false
+        (fun h => by cases h) stCoup (by decide) none (fun _ => 1) 1 one_ne_zero (by decide) rfl rfl
+        (fun h => by cases h) hunc (fun h => by cases h) sol h
 
 /-- `SolveUnc`, `get_su_eig` path: LU solves for rf and rb (`imrb`), complex modes for el -/
 example : ∃ sol, colSU envCoup stCoup false (some eig) (fun _ => 1) 2 = .ok sol ∧
     ∀ r, r < 3 →
       ((List.range 3).map fun c =>
-        partStiff envCoup.i 2 envCoup.M envCoup.B envCoup.K lay.rb lay.el lay.rf r c *
+        partStiff envCoup.i 2 envCoup.M envCoup.rbDamping envCoup.B envCoup.K lay.rb lay.el lay.rf r c *
           (rowOf sol c).d).sum = (fun _ => 1) r ∧
       (rowOf sol r).v = envCoup.i * 2 * (rowOf sol r).d ∧
       (rowOf sol r).a = -(2 * 2) * (rowOf sol r).d := by
@@ -64,18 +112,83 @@ example : ∃ sol, colSU envCoup stCoup false (some eig) (fun _ => 1) 2 = .ok so
         cases hed
         exact ⟨fun _ => ![2, 3], by decide, by decide, by decide, by decide, by decide⟩) sol h
 
+/-- `colSU_zero_freq` on the system with the damped rigid-body mode, both constructor paths: at `Ω = 0`
+the rigid-body row holds `d = v = 0`, `a = f/m = 1`, the elastic and residual-flexibility rows the
+static solution `3 = 1/2`, `2 = 1/3` with `v = a = 0` -/
+example : ∀ uncReal : Bool, ∃ sol,
+    colSU envUncD (if uncReal then stUnc else stCoup) uncReal none (fun _ => 1) 0 = .ok sol ∧
+    sol.map (fun x => (x.d, x.v, x.a)) = [(0, 0, 1), (3, 0, 0), (2, 0, 0)] ∧
+    (∀ r, r < 3 → r ∉ lay.rb →
+      ((List.range 3).map fun c =>
+        partStiff envUncD.i 0 envUncD.M envUncD.rbDamping envUncD.B envUncD.K lay.rb lay.el lay.rf r c *
+          (rowOf sol c).d).sum = (fun _ => 1) r ∧ (rowOf sol r).v = 0 ∧ (rowOf sol r).a = 0) := by
+  intro uncReal
+  have hz : ∀ x, envUncD.isZero x = true ↔ x = 0 := fun x => by simp [envUncD, envUnc]
+  have hunc : envUncD.unc = true → (∀ r c, r ≠ c → envUncD.M r c = 0 ∧ envUncD.B r c = 0 ∧ envUncD.K r c = 0) ∧
+      (∀ r ∈ lay.rf, envUncD.K r r ≠ 0) ∧ (∀ r ∈ lay.rb, envUncD.M r r ≠ 0) ∧
+      ∀ r ∈ lay.el, envUncD.i * (envUncD.B r r * 0) + envUncD.K r r - envUncD.M r r * (0 * 0) ≠ 0 :=
+    fun _ => ⟨fun r c hne => by simp [envUncD, envUnc, hne], by decide, by decide, by decide⟩
+  cases uncReal with
+  | true =>
+    have hres : (match colSU envUncD stUnc true none (fun _ => 1) 0 with
+        | .ok sol => sol.map fun x => (x.d, x.v, x.a)
+        | .error _ => []) = [(0, 0, 1), (3, 0, 0), (2, 0, 0)] := by decide +kernel
+    cases h : colSU envUncD stUnc true none (fun _ => 1) 0 with
+    | error m => rw [h] at hres; cases hres
+    | ok sol =>
+      rw [h] at hres
+      refine ⟨sol, h, hres, ?_⟩
+      exact (colSU_zero_freq envUncD hz lay (by decide) (by decide) (by decide) true
+        (fun _ => rfl) stUnc (by decide) none (fun _ => 1) (by decide) rfl rfl
+        (fun h => by cases h) hunc (fun h => by cases h) sol h).1
+  | false =>
+    have hres : (match colSU envUncD stCoup false none (fun _ => 1) 0 with
+        | .ok sol => sol.map fun x => (x.d, x.v, x.a)
+        | .error _ => []) = [(0, 0, 1), (3, 0, 0), (2, 0, 0)] := by decide +kernel
+    cases h : colSU envUncD stCoup false none (fun _ => 1) 0 with
+    | error m => rw [h] at hres; cases hres
+    | ok sol =>
+      rw [h] at hres
+      refine ⟨sol, h, hres, ?_⟩
+      exact (colSU_zero_freq envUncD hz lay (by decide) (by decide) (by decide) false
+        (fun h => by cases h) stCoup (by decide) none (fun _ => 1) (by decide) rfl rfl
+        (fun h => by cases h) hunc (fun h => by cases h) sol h).1
+
+/-- `colSU_eq_colFD_unc` on the system with the damped rigid-body mode: both solvers return a column
+and the two columns are equal row by row -/
+example : ∃ solSU solFD, colSU envUncD stUnc true none (fun _ => 1) 1 = .ok solSU ∧
+    colFD envUncD lay (fun _ => 1) 1 = .ok solFD ∧ ∀ r, r < 3 → rowOf solSU r = rowOf solFD r := by
+  have h1 : (match colSU envUncD stUnc true none (fun _ => 1) 1 with
+      | .ok sol => sol.length
+      | .error _ => 0) = 3 := by decide +kernel
+  have h2 : (match colFD envUncD lay (fun _ => 1) 1 with
+      | .ok sol => sol.length
+      | .error _ => 0) = 3 := by decide +kernel
+  cases hs : colSU envUncD stUnc true none (fun _ => 1) 1 with
+  | error m => rw [hs] at h1; cases h1
+  | ok solSU =>
+    cases hf : colFD envUncD lay (fun _ => 1) 1 with
+    | error m => rw [hf] at h2; cases h2
+    | ok solFD =>
+      refine ⟨solSU, solFD, rfl, rfl, ?_⟩
+      exact colSU_eq_colFD_unc envUncD (fun x => by simp [envUncD, envUnc]) lay (by decide) (by decide)
+        (by decide) (by decide) (fun r => by simp [lay]) true stUnc (by decide) (fun _ => 1) 1
+        one_ne_zero (by decide) rfl rfl (fun h => by cases h) rfl
+        (fun r c hne => by simp [envUncD, envUnc, hne]) (by decide) (by decide) (by decide) (by decide)
+        solSU solFD hs hf
+
 /-- `FreqDirect`, uncoupled branch and coupled branch (`la.solve` = `gaussList`) -/
 example : (∃ sol, colFD envUnc lay (fun _ => 1) 1 = .ok sol ∧
       ∀ r, r < 3 →
         ((List.range 3).map fun c =>
-          partStiff envUnc.i 1 envUnc.M envUnc.B envUnc.K [] lay.nonrf lay.rf r c *
+          partStiff envUnc.i 1 envUnc.M envUnc.B envUnc.B envUnc.K [] lay.nonrf lay.rf r c *
             (rowOf sol c).d).sum = (fun _ => 1) r ∧
         (rowOf sol r).v = envUnc.i * 1 * (rowOf sol r).d ∧
         (rowOf sol r).a = -(1 * 1) * (rowOf sol r).d) ∧
     (∃ sol, colFD envCoup lay (fun _ => 1) 2 = .ok sol ∧
       ∀ r, r < 3 →
         ((List.range 3).map fun c =>
-          partStiff envCoup.i 2 envCoup.M envCoup.B envCoup.K [] lay.nonrf lay.rf r c *
+          partStiff envCoup.i 2 envCoup.M envCoup.B envCoup.B envCoup.K [] lay.nonrf lay.rf r c *
             (rowOf sol c).d).sum = (fun _ => 1) r ∧
         (rowOf sol r).v = envCoup.i * 2 * (rowOf sol r).d ∧
         (rowOf sol r).a = -(2 * 2) * (rowOf sol r).d) := by
@@ -147,5 +260,39 @@ example : (∃ sol, colSU { envUnc with inc := ⟨false, true, false⟩, dispOnl
         | .error _ => 0) = 3 := by decide +kernel
     rw [hsol] at hres
     exact ⟨sol, hsol, hres⟩
+
+/-- `colSU_solves_options` on the system with the damped rigid-body mode, `incrb = "v"`,
+`rf_disp_only = True`: the column exists, the rigid-body row keeps only `v = 2`, and the full-size
+equation holds on the elastic and residual-flexibility rows -/
+example : ∃ sol, colSU { envUncD with inc := ⟨false, true, false⟩, dispOnly := true } stUnc true none
+      (fun _ => 1) 1 = .ok sol ∧
+    sol.map (fun x => (x.d, x.v, x.a)) = [(0, 2, 0), (2, 4, 3), (2, 0, 0)] ∧
+    ∀ r, r < 3 → r ∉ lay.rb →
+      ((List.range 3).map fun c =>
+        partStiff envUncD.i 1 envUncD.M envUncD.rbDamping envUncD.B envUncD.K lay.rb lay.el lay.rf r c *
+          (rowOf sol c).d).sum = (fun _ => 1) r := by
+  have href : ∃ solRef, colSU (ColEnv.ref { envUncD with inc := ⟨false, true, false⟩, dispOnly := true })
+      stUnc true none (fun _ => 1) 1 = .ok solRef := by
+    have hres : (match colSU (ColEnv.ref { envUncD with inc := ⟨false, true, false⟩, dispOnly := true })
+          stUnc true none (fun _ => 1) 1 with
+        | .ok sol => sol.length
+        | .error _ => 0) = 3 := by decide +kernel
+    cases h : colSU (ColEnv.ref { envUncD with inc := ⟨false, true, false⟩, dispOnly := true })
+        stUnc true none (fun _ => 1) 1 with
+    | error m => rw [h] at hres; cases hres
+    | ok sol => exact ⟨sol, rfl⟩
+  obtain ⟨solRef, href⟩ := href
+  obtain ⟨sol, hsol, hrows⟩ := colSU_solves_options
+    { envUncD with inc := ⟨false, true, false⟩, dispOnly := true } (fun x => by simp [envUncD, envUnc])
+    lay (by decide) (by decide) (by decide) true (fun _ => rfl) stUnc (by decide) none (fun _ => 1) 1
+    one_ne_zero (by decide) (fun h => by cases h)
+    (fun _ => ⟨fun r c hne => by simp [envUncD, envUnc, hne], by decide, by decide, by decide, by decide⟩)
+    (fun h => by cases h) solRef href
+  have hres : (match colSU { envUncD with inc := ⟨false, true, false⟩, dispOnly := true } stUnc true none
+        (fun _ => 1) 1 with
+      | .ok sol => sol.map fun x => (x.d, x.v, x.a)
+      | .error _ => []) = [(0, 2, 0), (2, 4, 3), (2, 0, 0)] := by decide +kernel
+  rw [hsol] at hres
+  exact ⟨sol, hsol, hres, fun r hr hnot => (hrows r hr).1 (Or.inl hnot)⟩
 
 end PyYetiVerif.C02
